@@ -557,6 +557,7 @@ type SpecCtx struct {
 	depth int
 	fr    *Frame
 	preds map[string]string // predicate name -> symbol being defined (recursive occurrences)
+	oldHeaps heapFn          // recording wrapper around old.heap (predicates)
 }
 
 func (c *SpecCtx) withVars(vs map[string]*specVar) *SpecCtx {
@@ -576,6 +577,9 @@ func (c *SpecCtx) inOld() *SpecCtx {
 	if c.old != nil {
 		o := c.old
 		n.heaps = o.heap
+		if c.oldHeaps != nil {
+			n.heaps = c.oldHeaps
+		}
 		n.alloc = o.alloc
 	}
 	// locals are not rewound: old() over parameters and heap only
@@ -1211,7 +1215,7 @@ func (c *SpecCtx) evalCall(x *ast.CallExpr) (Val, types.Type) {
 	case "cap":
 		v, _ := c.eval(x.Args[0])
 		return SlCap(v.(*Term)), tInt
-	case "forall", "exists":
+	case "forall", "exists", "forallt":
 		id := x.Args[0].(*ast.Ident)
 		bv := BoundVar(id.Name, SInt)
 		lo, _ := c.eval(x.Args[1])
@@ -1219,7 +1223,19 @@ func (c *SpecCtx) evalCall(x *ast.CallExpr) (Val, types.Type) {
 		c2 := c.withVars(map[string]*specVar{id.Name: {v: bv, t: tInt}})
 		body := c2.evalBool(x.Args[3])
 		rng := And(Le(lo.(*Term), bv), Lt(bv, hi.(*Term)))
+		if fname == "forallt" {
+			// explicit trigger term(s)
+			var pats [][]*Term
+			for _, pa := range x.Args[4:] {
+				pv, _ := c2.eval(pa)
+				pats = append(pats, []*Term{c.e.term(pv)})
+			}
+			return Forall([]*Term{bv}, Implies(rng, body), pats...), tBool
+		}
 		if fname == "forall" {
+			if os.Getenv("GOVC_ELPAT") != "" {
+				return Forall([]*Term{bv}, Implies(rng, body), elPatterns(body, bv)...), tBool
+			}
 			return Forall([]*Term{bv}, Implies(rng, body)), tBool
 		}
 		return Exists([]*Term{bv}, And(rng, body)), tBool
@@ -1274,6 +1290,13 @@ func (c *SpecCtx) evalCall(x *ast.CallExpr) (Val, types.Type) {
 	case "iref":
 		v, _ := c.eval(x.Args[0])
 		return IfRef(v.(*Term)), tInt
+	case "pktbytes":
+		// BER-wrapped form of packet p at the context's heap: what (*ber.Packet).Bytes returns
+		v, t := c.eval(x.Args[0])
+		pkt := t.Underlying().(*types.Pointer).Elem()
+		tmp := &State{heaps: map[string]*Term{}, alloc: c.alloc}
+		_ = tmp
+		return c.pktBytes(c.e.term(v), pkt), tString
 	case "bytestr":
 		// bytestr(b) : string of a byte slice at the current heap
 		v, t := c.eval(x.Args[0])
@@ -1318,6 +1341,9 @@ func (c *SpecCtx) callPure(pf *PureFn, args []ast.Expr) (Val, types.Type) {
 			panic(sperr("pure %s: unknown parameter type %s", pf.Name, exprStr(p.Type)))
 		}
 		v = c.coerceNil(v, vt, pt)
+		if tm, ok := v.(*Term); ok {
+			v = nameGround(tm)
+		}
 		vs[p.Name] = &specVar{v: v, t: pt}
 		if pf.Abstract {
 			tm := c.e.term(v)
@@ -1335,6 +1361,9 @@ func (c *SpecCtx) callPure(pf *PureFn, args []ast.Expr) (Val, types.Type) {
 	}
 	n := &SpecCtx{e: c.e, st: c.st, heaps: c.heaps, alloc: c.alloc, old: c.old, vars: vs, pkg: pc.pkg, depth: c.depth + 1, fr: c.fr, preds: c.preds}
 	v, _ := n.eval(pf.Body)
+	if tm, ok := v.(*Term); ok {
+		v = nameGround(tm)
+	}
 	return v, rt
 }
 
@@ -1346,12 +1375,15 @@ func (c *SpecCtx) callPure(pf *PureFn, args []ast.Expr) (Val, types.Type) {
 var predCache = map[string]string{}
 
 func (c *SpecCtx) callPred(pf *PureFn, pkg *types.Package, vs map[string]*specVar) *Term {
-	if len(pf.Params) != 1 {
-		panic(sperr("predicate %s: exactly one parameter supported", pf.Name))
+	var args []*Term
+	var sorts []Sort
+	for _, p := range pf.Params {
+		t := c.e.term(vs[p.Name].v)
+		args = append(args, t)
+		sorts = append(sorts, t.S)
 	}
-	arg := c.e.term(vs[pf.Params[0].Name].v)
 	if sym, ok := c.preds[pf.Name]; ok {
-		return App(sym, SBool, arg)
+		return App(sym, SBool, args...)
 	}
 	sym := freshName("pred." + pf.Name)
 	rec := map[string]*Term{}
@@ -1361,10 +1393,27 @@ func (c *SpecCtx) callPred(pf *PureFn, pkg *types.Package, vs map[string]*specVa
 		rec[name] = h
 		return h
 	}
-	q := BoundVar("q", SInt)
-	n := &SpecCtx{e: c.e, st: c.st, heaps: heaps2, alloc: c.alloc, old: c.old, pkg: pkg, depth: c.depth + 1, fr: c.fr,
-		vars:  map[string]*specVar{pf.Params[0].Name: {v: q, t: vs[pf.Params[0].Name].t}},
-		preds: map[string]string{pf.Name: sym}}
+	var old2 heapFn
+	if c.old != nil {
+		ob := c.old.heap
+		if c.oldHeaps != nil {
+			ob = c.oldHeaps
+		}
+		old2 = func(name string, s Sort) *Term {
+			h := ob(name, s)
+			rec["old:"+name] = h
+			return h
+		}
+	}
+	var qs []*Term
+	pv := map[string]*specVar{}
+	for i, p := range pf.Params {
+		q := BoundVar(p.Name, sorts[i])
+		qs = append(qs, q)
+		pv[p.Name] = &specVar{v: q, t: vs[p.Name].t}
+	}
+	n := &SpecCtx{e: c.e, st: c.st, heaps: heaps2, alloc: c.alloc, old: c.old, oldHeaps: old2, pkg: pkg, depth: c.depth + 1, fr: c.fr,
+		vars: pv, preds: map[string]string{pf.Name: sym}}
 	for k, v := range c.preds {
 		n.preds[k] = v
 	}
@@ -1379,12 +1428,13 @@ func (c *SpecCtx) callPred(pf *PureFn, pkg *types.Package, vs map[string]*specVa
 		key += "|" + k + "=" + rec[k].key
 	}
 	if s2, ok := predCache[key]; ok {
-		return App(s2, SBool, arg)
+		return App(s2, SBool, args...)
 	}
 	predCache[key] = sym
-	declFun(sym, SBool, SInt)
-	funAxioms[sym] = []*Term{Forall([]*Term{q}, Implies(App(sym, SBool, q), body), []*Term{App(sym, SBool, q)})}
-	return App(sym, SBool, arg)
+	declFun(sym, SBool, sorts...)
+	app := App(sym, SBool, qs...)
+	funAxioms[sym] = []*Term{Forall(qs, mk("=", SBool, app, body), []*Term{app})}
+	return App(sym, SBool, args...)
 }
 
 func sortStrings(a []string) {
@@ -1393,4 +1443,94 @@ func sortStrings(a []string) {
 			a[j], a[j-1] = a[j-1], a[j]
 		}
 	}
+}
+
+func (c *SpecCtx) pktBytes(p *Term, pkt types.Type) *Term {
+	declFun("ber_tlv", SStr, SInt, SInt, SInt, SStr)
+	s := under(pkt).(*types.Struct)
+	var cls, typ, tag, buf *Term
+	for i := 0; i < s.NumFields(); i++ {
+		switch s.Field(i).Name() {
+		case "Identifier":
+			id := c.loadAt(c.e.fieldAddr(p, pkt, i), s.Field(i).Type()).(*StructVal)
+			is := under(id.T).(*types.Struct)
+			for j := 0; j < is.NumFields(); j++ {
+				switch is.Field(j).Name() {
+				case "ClassType":
+					cls = id.F[j].(*Term)
+				case "TagType":
+					typ = id.F[j].(*Term)
+				case "Tag":
+					tag = id.F[j].(*Term)
+				}
+			}
+		case "Data":
+			buf = c.loadAt(c.e.fieldAddr(p, pkt, i), s.Field(i).Type()).(*Term)
+		}
+	}
+	return App("ber_tlv", SStr, cls, typ, tag, Select(c.heaps("G!bufdata", ArrSort(SStr)), buf))
+}
+
+// elPatterns: triggers for a quantifier over an index variable: the element
+// addresses el(a, ..v..) occurring in the body (each one an alternative).
+func elPatterns(body, v *Term) [][]*Term {
+	seen := map[*Term]bool{}
+	var found []*Term
+	contains := map[*Term]bool{}
+	var has func(t *Term) bool
+	has = func(t *Term) bool {
+		if r, ok := contains[t]; ok {
+			return r
+		}
+		r := t == v
+		for _, a := range t.Args {
+			if has(a) {
+				r = true
+			}
+		}
+		contains[t] = r
+		return r
+	}
+	var walk func(t *Term)
+	walk = func(t *Term) {
+		if seen[t] || !has(t) {
+			return
+		}
+		seen[t] = true
+		if t.Op == "forall" || t.Op == "exists" {
+			walk(t.Args[0])
+			return
+		}
+		if t.Op == "el" && len(t.Args) == 2 && !has(t.Args[0]) && has(t.Args[1]) {
+			// no other bound variable may occur (nested quantifiers)
+			if !mentionsOtherBound(t, v) {
+				found = append(found, t)
+			}
+			return
+		}
+		for _, a := range t.Args {
+			walk(a)
+		}
+	}
+	walk(body)
+	var pats [][]*Term
+	for _, f := range found {
+		pats = append(pats, []*Term{f})
+	}
+	if len(pats) > 6 {
+		pats = pats[:6]
+	}
+	return pats
+}
+
+func mentionsOtherBound(t, v *Term) bool {
+	if len(t.Args) == 0 {
+		return boundVars[t] && t != v
+	}
+	for _, a := range t.Args {
+		if mentionsOtherBound(a, v) {
+			return true
+		}
+	}
+	return false
 }
